@@ -7,11 +7,11 @@ from diskcases import eval_disk_cases, Untranslatable
 
 def run(pid, tier, seed, replay):
     ctx = Ctx(pid, tier, seed)
-    ctx.trusted.append("process-crash model: one file-system effect (a write(2) of a batch, a store through the index mapping, create, rename, remove, an atomic checkpoint replace by natefinch/atomic) is the unit of atomicity and the OS keeps what was written; torn writes, power loss (unsynced pages) and a crash inside commitlog.New itself are not modelled")
+    ctx.trusted.append("process-crash model: one file-system effect (a write(2) of a batch, a store through the index mapping, create, rename, remove, an atomic checkpoint replace by natefinch/atomic) is the unit of atomicity and the OS keeps what was written; in addition a batch write and an index store may be torn (a byte prefix arrives: assumed of a killed write(2) and of the runtime's ascending memmove, constructed by the driver through file surgery) and commitlog.New is itself a list of effects that may be cut short; power loss (unsynced pages) is not modelled")
     ctx.trusted.append("the in-process crash (the crash-point hook panics, the log object is abandoned without Close) is validated on every run against a child process killed with SIGKILL at the same crash point: the files left behind must be identical")
     ctx.trusted.append("the verif-tagged crash points sit between the effects of append, roll, truncate, segment replacement, segment deletion, retention and compaction (MANIFEST.hooks); the model's scripts list every effect, the theorems quantify over every prefix of them, the driver can only stop at the named points")
     ctx.coq_cone("Properties/C05.v")
-    nprog = 12 if tier == "quick" else 150
+    nprog = 10 if tier == "quick" else 150
     env = {"VERIF_N": nprog, "VERIF_C05_REPLAYS": 60 if tier == "quick" else 400, "VERIF_C05_CHILD_EVERY": 25 if tier == "quick" else 10}
     if replay:
         rp = json.load(open(replay))
@@ -56,8 +56,9 @@ def run(pid, tier, seed, replay):
     return ctx.finish(
         coverage={"input_distribution": dist, "programs": dist.get("programs", 0), "crash_replays": len(crashes), "crash_points_by_operation": points,
                   "killed_child_comparisons": dist.get("child-kill-compared", 0),
+                  "crashes_inside_recovery": {k[7:]: v for k, v in dist.items() if k.startswith("crash2/")},
                   "torn_write_replays": {"log": dist.get("torn/log", 0), "index": dist.get("torn/index", 0),
                                          "compared_with_model": sum(1 for c in cases for o in c["ops"] if o.get("op") == "crash" and o.get("torn"))}, "histories_compared_with_model": len(cases), "case_shards": nshards},
         samples=[{k: v for k, v in c.items() if k not in ("disk", "ops")} for c in crashes[:2]] or [{}],
-        rule="generated programs of 6-17 operations (appends, AppendMessageSet, truncations above the HW, retention cleans by messages/bytes, compactions, HW moves and checkpoints, leader-epoch changes, clean reopens; segment sizes 80 B-1 MB so that most programs roll) are first run to completion counting the crash points they pass; every program is then replayed once per crash-point hit (sampled above the per-program cap): the hook stops the operation there, the files are listed, commitlog.New reopens the directory and the result is judged by the property's words (reopen succeeds; offsets strictly increase; every record read back was appended; everything appended and not being removed is there, also through the index; NewestOffset/OldestOffset agree with what is read; HW not above the one before; epoch history increasing, within the log, and attributing to every record its epoch); the interrupted operation is repeated, five more operations and a clean reopen follow under the C01 read-back oracle; every history is replayed on the Coq crash model (points passed per operation, files after the crash, recovered view, later reads); a watchdog reports operations that do not return; non-trivial = a crash replay; distinct by (program, hit)",
+        rule="generated programs of 6-17 operations (appends, AppendMessageSet, truncations above the HW, retention cleans by messages/bytes, compactions, HW moves and checkpoints, leader-epoch changes, clean reopens; segment sizes 80 B-1 MB so that most programs roll) are first run to completion counting the crash points they pass; every program is then replayed once per crash-point hit (sampled above the per-program cap): the hook stops the operation there, the files are listed, commitlog.New reopens the directory and the result is judged by the property's words (reopen succeeds; offsets strictly increase; every record read back was appended; everything appended and not being removed is there, also through the index; NewestOffset/OldestOffset agree with what is read; HW not above the one before; epoch history increasing, within the log, and attributing to every record its epoch); the interrupted operation is repeated, five more operations and a clean reopen follow under the C01 read-back oracle; for every log/index write hit the crash is replayed once more as a crash inside that write (torn files); every crash whose recovery passed crash points is replayed with the recovery cut short at them (up to 3 per crash); every history is replayed on the Coq crash model (points passed per operation, files after the crash, recovered view, later reads); a watchdog reports operations that do not return; non-trivial = a crash replay; distinct by (program, hit)",
         evaluations=len(crashes), distinct_nontrivial=len(canon), traces=len(cases))
